@@ -134,6 +134,11 @@ func (conn *Conn) recv() {
 			req := new(SrvReq)
 			select {
 			case req.Rc = <-conn.rchan:
+				// a buffer from before Tversion lowered msize must
+				// not carry a reply larger than the client accepts
+				if len(req.Rc.Buf) > int(conn.Msize) {
+					req.Rc.Buf = req.Rc.Buf[:conn.Msize]
+				}
 			default:
 				req.Rc = NewFcall(conn.Msize)
 			}
